@@ -34,9 +34,11 @@ type FileQueue struct {
 	LevelDB *leveldb.LevelDBDatabase
 
 	SyncFileDB *SyncFileDB
-	DoneChan   chan *Inject
-	ErrChan    chan *Inject
-	Quit       chan struct{}
+	// Scan is called for every record which is replayed from the file at start
+	Scan     ScanExtend
+	DoneChan chan *Inject
+	ErrChan  chan *Inject
+	Quit     chan struct{}
 }
 
 func (queue *FileQueue) path() string {
@@ -295,6 +297,13 @@ func (queue *FileQueue) scanFile(filePath string, offset int64) (int64, error) {
 
 	for _, record := range records {
 		queue.SyncFileDB.Put(record.flg, record.key, record.val)
+		// the caller which wrote the record may have died before it finished what follows the write
+		if queue.Scan != nil {
+			err = queue.Scan.AfterScan(record.flg, record.key, record.val)
+			if err != nil {
+				return -1, err
+			}
+		}
 	}
 	log.Debugf("load file %s: %d records, %d bytes", filePath, len(records), end)
 	return end, ErrEOF
